@@ -1,5 +1,5 @@
 (* LinksFacts.v -- proofs about the parent-link model (Links.v), property C18 *)
-From CssV Require Import Base Links.
+From CssV Require Import Base Gen.LinkSites Links.
 From Coq Require Import Permutation.
 
 (* ------------------------------------------------------------------ the invariant *)
@@ -202,30 +202,59 @@ Proof.
     rewrite get_upd. destruct (Nat.eqb p x); rewrite Gx; simpl; eexists; split; eauto.
 Qed.
 
-Lemma ok_alloc h k pr pss par own : LinksOk h -> LinksOk (alloc h k pr pss par own).
+Lemma ok_push h o : LinksOk h -> kids o = [] -> LinksOk (h ++ [o]).
 Proof.
-  intros [ND E]. unfold alloc. split.
-  - unfold allkids. rewrite flat_map_app. simpl. now rewrite app_nil_r.
+  intros [ND E] Ko. split.
+  - unfold allkids. rewrite flat_map_app. simpl. rewrite Ko. simpl. now rewrite app_nil_r.
   - intros q oq r x Gq I. unfold get in Gq.
     destruct (Nat.lt_ge_cases q (length h)) as [L|L].
     + rewrite nth_error_app1 in Gq by exact L. destruct (E _ _ _ _ Gq I) as (ox & Gx & S).
       exists ox. split; auto. unfold get. rewrite nth_error_app1; auto.
       apply nth_error_Some. unfold get in Gx. congruence.
     + rewrite nth_error_app2 in Gq by exact L. destruct (q - length h) as [|n]; simpl in Gq.
-      * inversion Gq; subst. simpl in I. contradiction.
+      * inversion Gq; subst. rewrite Ko in I. contradiction.
       * destruct n; discriminate.
 Qed.
 
+Lemma ok_alloc h k pr pss par own : LinksOk h -> LinksOk (alloc h k pr pss par own).
+Proof. intros L. unfold alloc. now apply ok_push. Qed.
+
+Lemma ok_app_nokids g : forall h, LinksOk h -> Forall (fun o => kids o = []) g -> LinksOk (h ++ g).
+Proof.
+  induction g as [|o g IH]; intros h L F.
+  - now rewrite app_nil_r.
+  - inversion F; subst. replace (h ++ o :: g) with ((h ++ [o]) ++ g) by (rewrite <- app_assoc; reflexivity).
+    apply IH; auto. now apply ok_push.
+Qed.
+
 (* ------------------------------------------------------------------ the sites *)
+Lemma write1_kids p w o : kids (write1 p w o) = kids o.
+Proof. destruct w as [[] v]; reflexivity. Qed.
+Lemma write1_kind p w o : okind (write1 p w o) = okind o.
+Proof. destruct w as [[] v]; reflexivity. Qed.
+Lemma apply_writes_kids ws p o : kids (apply_writes ws p o) = kids o.
+Proof. unfold apply_writes. revert o; induction ws as [|w t IH]; intros o; simpl; auto. rewrite IH. apply write1_kids. Qed.
+Lemma apply_writes_kind ws p o : okind (apply_writes ws p o) = okind o.
+Proof. unfold apply_writes. revert o; induction ws as [|w t IH]; intros o; simpl; auto. rewrite IH. apply write1_kind. Qed.
+Lemma guarded_kids g ws p o : kids (guarded g ws p o) = kids o.
+Proof.
+  unfold guarded. destruct g as [f|]; [|apply apply_writes_kids].
+  destruct (fld_get f o) as [q|]; auto. destruct (Nat.eqb q p); auto. apply apply_writes_kids.
+Qed.
+
 Lemma site_writes_kids s p o : kids (site_writes s p o) = kids o.
-Proof. destruct s; reflexivity. Qed.
+Proof. destruct s; try reflexivity; apply apply_writes_kids. Qed.
 Lemma site_writes_kind s p o : okind (site_writes s p o) = okind o.
-Proof. destruct s; reflexivity. Qed.
+Proof. destruct s; try reflexivity; apply apply_writes_kind. Qed.
 
 (* each site writes what the role of the new edge demands *)
 Lemma site_writes_spec s p o :
   okind o = snd (site_kinds s) -> link_spec (site_role s) p (site_writes s p o).
-Proof. destruct s; simpl; intros K; unfold link_spec; simpl; rewrite K; auto 6. Qed.
+Proof.
+  (* for SSheetInsert / SContInsert this computes with the REGENERATED write lists: a site that stops writing
+     an attribute its role needs breaks this lemma *)
+  destruct s; simpl; intros K; unfold link_spec; cbn; rewrite K; auto 6.
+Qed.
 
 Lemma ok_clear_role r h p : LinksOk h -> LinksOk (clear_role r h p).
 Proof.
@@ -260,34 +289,43 @@ Proof.
   rewrite get_upd. destruct (Nat.eqb p x); rewrite G; simpl; eauto 10.
 Qed.
 
-Lemma ok_attach s h p c idx : LinksOk h -> LinksOk (attach s h p c idx).
+Lemma ok_attach_gen w r kp kc h p c idx :
+  (forall p o, kids (w p o) = kids o) ->
+  (forall p o, okind o = kc -> link_spec r p (w p o)) ->
+  LinksOk h -> LinksOk (attach_gen w r kp kc h p c idx).
 Proof.
-  intros L. unfold attach.
+  intros Hk Hs L. unfold attach_gen.
   destruct (get h p) as [op|] eqn:Gp; auto. destruct (get h c) as [oc|] eqn:Gc; auto.
-  destruct (negb (contained h c) && kind_eqb (okind op) (fst (site_kinds s)) &&
-            kind_eqb (okind oc) (snd (site_kinds s))) eqn:C; auto.
+  destruct (negb (contained h c) && kind_eqb (okind op) kp && kind_eqb (okind oc) kc) eqn:C; auto.
   apply andb_true_iff in C as [C Kc]. apply andb_true_iff in C as [C Kp].
   apply negb_true_iff in C. apply contained_false in C. apply kind_eqb_eq in Kc.
-  set (h1 := clear_role (site_role s) h p).
+  set (h1 := clear_role r h p).
   assert (LinksOk h1) as L1 by now apply ok_clear_role.
   assert (~ In c (allkids h1)) as C1. { intros I. apply C. eapply allkids_clear_role_incl; eauto. }
-  destruct (get_clear_role (site_role s) h p c oc Gc) as (oc1 & Gc1 & Kc1 & _).
-  destruct (get_clear_role (site_role s) h p p op Gp) as (op1 & Gp1 & _).
+  destruct (get_clear_role r h p c oc Gc) as (oc1 & Gc1 & Kc1 & _).
+  destruct (get_clear_role r h p p op Gp) as (op1 & Gp1 & _).
   fold h1 in Gc1, Gp1.
-  set (h2 := upd h1 c (site_writes s p)).
-  assert (LinksOk h2) as L2. { apply ok_write; auto. intros o. apply site_writes_kids. }
-  assert (~ In c (allkids h2)) as C2. { unfold h2. rewrite allkids_upd_same; auto. intros o. apply site_writes_kids. }
-  assert (get h2 c = Some (site_writes s p oc1)) as Gc2 by now apply get_upd_eq.
+  set (h2 := upd h1 c (w p)).
+  assert (LinksOk h2) as L2. { apply ok_write; auto. }
+  assert (~ In c (allkids h2)) as C2. { unfold h2. rewrite allkids_upd_same; auto. }
+  assert (get h2 c = Some (w p oc1)) as Gc2 by now apply get_upd_eq.
   assert (exists op2, get h2 p = Some op2) as (op2 & Gp2).
   { unfold h2. rewrite get_upd. destruct (Nat.eqb c p); rewrite Gp1; simpl; eauto. }
-  rewrite (upd_ext_at h2 p (fun o => set_kids (ins (site_role s) c idx (kids o)) o) (set_kids (ins (site_role s) c idx (kids op2))) op2 Gp2 eq_refl).
-  apply (ok_add h2 p op2 (site_role s) c (site_writes s p oc1)); auto.
-  - apply site_writes_spec. congruence.
+  rewrite (upd_ext_at h2 p (fun o => set_kids (ins r c idx (kids o)) o) (set_kids (ins r c idx (kids op2))) op2 Gp2 eq_refl).
+  apply (ok_add h2 p op2 r c (w p oc1)); auto.
+  - apply Hs. congruence.
   - apply ins_perm.
 Qed.
 
-Lemma dsite_writes_kids d o : kids (dsite_writes d o) = kids o.
-Proof. destruct d; reflexivity. Qed.
+Lemma ok_attach s h p c idx : LinksOk h -> LinksOk (attach s h p c idx).
+Proof.
+  intros L. unfold attach. apply ok_attach_gen; auto.
+  - intros. apply site_writes_kids.
+  - intros. now apply site_writes_spec.
+Qed.
+
+Lemma dsite_writes_kids d p o : kids (dsite_writes d p o) = kids o.
+Proof. destruct d; apply apply_writes_kids. Qed.
 
 Lemma removed_uncontained h p op r i c rest :
   LinksOk h -> get h p = Some op -> del r i (kids op) = Some (c, rest) ->
@@ -303,13 +341,16 @@ Proof.
     simpl in ND. apply NoDup_remove_2 in ND. exact ND.
 Qed.
 
-Lemma ok_detach d h p i : LinksOk h -> LinksOk (detach d h p i).
+Lemma ok_detach_gen w r h p i : (forall p o, kids (w p o) = kids o) -> LinksOk h -> LinksOk (detach_gen w r h p i).
 Proof.
-  intros L. unfold detach. destruct (get h p) as [op|] eqn:G; auto.
-  destruct (del (dsite_role d) i (kids op)) as [[c rest]|] eqn:D; auto.
+  intros Hk L. unfold detach_gen. destruct (get h p) as [op|] eqn:G; auto.
+  destruct (del r i (kids op)) as [[c rest]|] eqn:D; auto.
   destruct (removed_uncontained _ _ _ _ _ _ _ L G D) as [L1 NC].
-  apply ok_write; auto. apply dsite_writes_kids.
+  apply ok_write; auto.
 Qed.
+
+Lemma ok_detach d h p i : LinksOk h -> LinksOk (detach d h p i).
+Proof. intros L. unfold detach. apply ok_detach_gen; auto. intros. apply dsite_writes_kids. Qed.
 
 Lemma ok_drop r h p i : LinksOk h -> LinksOk (drop r h p i).
 Proof.
@@ -346,21 +387,287 @@ Proof. unfold run. revert h; induction ops as [|o t IH]; simpl; intros h L; auto
 Theorem links_invariant_l : forall ops, LinksOk (run ops start).
 Proof. intros. apply ok_run, ok_start. Qed.
 
-Lemma ok_fold_attach s p l h : LinksOk h -> LinksOk (fold_left (fun h c => attach s h p c (length h)) l h).
-Proof. revert h; induction l as [|c t IH]; simpl; intros h L; auto. apply IH. now apply ok_attach. Qed.
+Lemma ok_fold_attach_gen w r kp kc p l h :
+  (forall p o, kids (w p o) = kids o) -> (forall p o, okind o = kc -> link_spec r p (w p o)) ->
+  LinksOk h -> LinksOk (fold_left (fun h c => attach_gen w r kp kc h p c (length h)) l h).
+Proof. intros Hk Hs. revert h; induction l as [|c t IH]; simpl; intros h L; auto. apply IH. now apply ok_attach_gen. Qed.
 
-Lemma ok_detach_all n d p h : LinksOk h -> LinksOk (detach_all n d h p).
-Proof. revert h; induction n as [|n IH]; simpl; intros h L; auto. apply IH. now apply ok_detach. Qed.
+Lemma ok_detach_all_gen n w r p h : (forall p o, kids (w p o) = kids o) -> LinksOk h -> LinksOk (detach_all_gen n w r h p).
+Proof. intros Hk. revert h; induction n as [|n IH]; simpl; intros h L; auto. apply IH. now apply ok_detach_gen. Qed.
+
+(* the second loops of the two cssRules setters (REGENERATED) write what the role of the new edges demands *)
+Lemma sheet_setrules_new_spec p o : okind o = KRule -> link_spec RTop p (apply_writes sheet_setrules_new p o).
+Proof. intros K. unfold link_spec. cbn. rewrite K. auto. Qed.
+Lemma cont_setrules_new_spec p o : okind o = KRule -> link_spec RSub p (apply_writes cont_setrules_new p o).
+Proof. intros K. unfold link_spec. cbn. rewrite K. auto. Qed.
+
+Lemma ok_sheet_set_cssRules h p l : LinksOk h -> LinksOk (sheet_set_cssRules h p l).
+Proof.
+  intros L. unfold sheet_set_cssRules. apply ok_fold_attach_gen.
+  - intros. apply apply_writes_kids.
+  - apply sheet_setrules_new_spec.
+  - apply ok_detach_all_gen; auto; intros; apply guarded_kids.
+Qed.
 
 Theorem set_cssRules_ok_l : forall h p l, LinksOk h ->
   LinksOk (sheet_set_cssRules h p l) /\ LinksOk (container_set_cssRules h p l).
 Proof.
-  intros. split; [now apply ok_fold_attach|]. unfold container_set_cssRules.
-  apply ok_fold_attach. now apply ok_detach_all.
+  intros h p l L. split; [now apply ok_sheet_set_cssRules|]. unfold container_set_cssRules. apply ok_fold_attach_gen.
+  - intros. apply apply_writes_kids.
+  - apply cont_setrules_new_spec.
+  - apply ok_detach_all_gen; auto; intros; apply guarded_kids.
 Qed.
 
 Theorem property_ctor_ok_l : forall h par, LinksOk h -> LinksOk (property_ctor h par).
 Proof. intros. unfold property_ctor. apply ok_attach. now do 2 apply ok_alloc. Qed.
+
+(* ------------------------------------------------------------------ a rejected sheet.cssText *)
+Lemma length_upd h p f : length (upd h p f) = length h.
+Proof. revert p; induction h as [|o t IH]; intros [|p]; simpl; auto. Qed.
+Lemma upd_app_l a b i f : i < length a -> upd (a ++ b) i f = upd a i f ++ b.
+Proof. revert i; induction a as [|o t IH]; intros [|i] L; simpl in *; try lia; auto. rewrite IH; auto. lia. Qed.
+Lemma upd_app_r a b i f : length a <= i -> upd (a ++ b) i f = a ++ upd b (i - length a) f.
+Proof.
+  revert i; induction a as [|o t IH]; intros i L; simpl in *.
+  - now rewrite Nat.sub_0_r.
+  - destruct i as [|i]; [lia|]. simpl. rewrite IH; auto. lia.
+Qed.
+Lemma upd_upd h p f g : upd (upd h p f) p g = upd h p (fun o => g (f o)).
+Proof. revert p; induction h as [|o t IH]; intros [|p]; simpl; auto. now rewrite IH. Qed.
+Lemma upd_ext h p f g : (forall o, f o = g o) -> upd h p f = upd h p g.
+Proof. intros E. revert p; induction h as [|o t IH]; intros [|p]; simpl; auto. now rewrite E. now rewrite IH. Qed.
+Lemma upd_id h p f : (forall o, f o = o) -> upd h p f = h.
+Proof. intros E. revert p; induction h as [|o t IH]; intros [|p]; simpl; auto. now rewrite E. now rewrite IH. Qed.
+Lemma set_kids_same o : set_kids (kids o) o = o.
+Proof. destruct o; reflexivity. Qed.
+Lemma upd_forall (P : obj -> Prop) g i f : Forall P g -> (forall o, P o -> P (f o)) -> Forall P (upd g i f).
+Proof.
+  intros F H. revert i; induction F as [|o t Po Ft IH]; intros [|i]; simpl; constructor; auto.
+Qed.
+
+Lemma role_eqb_refl r : role_eqb r r = true.
+Proof. now apply role_eqb_eq. Qed.
+Lemma without_role_ins r c i l : without_role r (ins r c i l) = without_role r l.
+Proof.
+  unfold without_role. revert i; induction l as [|[r' x] t IH]; intros i; simpl.
+  - now rewrite role_eqb_refl.
+  - destruct (role_eqb r r') eqn:E.
+    + destruct i; simpl; rewrite ?role_eqb_refl, ?E; simpl; auto.
+    + simpl. rewrite E. simpl. now rewrite IH.
+Qed.
+Lemma without_role_del r i l c rest : del r i l = Some (c, rest) -> without_role r rest = without_role r l.
+Proof.
+  unfold without_role. revert i c rest; induction l as [|[r' x] t IH]; intros i c rest; simpl; [discriminate|].
+  destruct (role_eqb r r') eqn:E.
+  - destruct i.
+    + intros H; inversion H; subst. reflexivity.
+    + destruct (del r i t) as [[c' t']|] eqn:D; [|discriminate]. intros H; inversion H; subst.
+      simpl. rewrite E. simpl. eapply IH; eauto.
+  - destruct (del r i t) as [[c' t']|] eqn:D; [|discriminate]. intros H; inversion H; subst.
+    simpl. rewrite E. simpl. f_equal. eapply IH; eauto.
+Qed.
+
+Lemma perm_split_role r l : Permutation l (without_role r l ++ map (pair r) (role_kids r l)).
+Proof.
+  unfold without_role, role_kids. induction l as [|[r' x] t IH]; simpl; auto.
+  destruct (role_eqb r r') eqn:E; simpl.
+  - apply role_eqb_eq in E; subst r'. now apply Permutation_cons_app.
+  - now constructor.
+Qed.
+
+Lemma role_kids_app r a b : role_kids r (a ++ b) = role_kids r a ++ role_kids r b.
+Proof. unfold role_kids. now rewrite filter_app, map_app. Qed.
+Lemma role_kids_pairs r' r x : role_kids r' (map (pair r) x) = if role_eqb r' r then x else [].
+Proof.
+  unfold role_kids. induction x as [|c t IH]; simpl; [now destruct (role_eqb r' r)|].
+  destruct (role_eqb r' r) eqn:E; simpl; rewrite IH; auto.
+Qed.
+Lemma role_kids_cons r r2 x t :
+  role_kids r ((r2, x) :: t) = if role_eqb r r2 then x :: role_kids r t else role_kids r t.
+Proof. unfold role_kids. simpl. now destruct (role_eqb r r2). Qed.
+Lemma without_role_cons r r2 x t :
+  without_role r ((r2, x) :: t) = if role_eqb r r2 then without_role r t else (r2, x) :: without_role r t.
+Proof. unfold without_role. simpl. now destruct (role_eqb r r2). Qed.
+Lemma role_kids_without r' r l :
+  role_kids r' (without_role r l) = if role_eqb r' r then [] else role_kids r' l.
+Proof.
+  induction l as [|[r2 x] t IH].
+  - now destruct (role_eqb r' r).
+  - rewrite without_role_cons, (role_kids_cons r' r2 x t).
+    destruct (role_eqb r r2) eqn:E2.
+    + apply role_eqb_eq in E2; subst r2. rewrite IH. now destruct (role_eqb r' r).
+    + rewrite role_kids_cons, IH. destruct (role_eqb r' r) eqn:E.
+      * apply role_eqb_eq in E; subst r'. now rewrite E2.
+      * reflexivity.
+Qed.
+Lemma role_kids_split r' r l :
+  role_kids r' (without_role r l ++ map (pair r) (role_kids r l)) = role_kids r' l.
+Proof.
+  rewrite role_kids_app, role_kids_pairs, role_kids_without.
+  destruct (role_eqb r' r) eqn:E; simpl.
+  - apply role_eqb_eq in E; now subst.
+  - now rewrite app_nil_r.
+Qed.
+
+(* two objects agree in everything the code can observe: kind, stored attributes, the element list of every role *)
+Definition same_obj (a b : obj) : Prop :=
+  okind a = okind b /\ f_pr a = f_pr b /\ f_pss a = f_pss b /\ f_par a = f_par b /\ f_own a = f_own b /\
+  forall r, role_kids r (kids a) = role_kids r (kids b).
+Lemma same_obj_refl a : same_obj a a.
+Proof. unfold same_obj; tauto. Qed.
+
+(* THE fact the rollback relies on, computed from the REGENERATED first loop of CSSStyleSheet._setCssRules:
+   the setter writes nothing on the rules of the list it replaces *)
+Lemma sheet_setter_keeps_replaced : forall p o, guarded sheet_setrules_old_guard sheet_setrules_old p o = o.
+Proof. reflexivity. Qed.
+
+Section Rejected.
+  Variables (h : heap) (p : id) (op : obj).
+  Hypothesis Gp : get h p = Some op.
+
+  Definition shaped (hx : heap) : Prop :=
+    exists K g, hx = upd h p (set_kids K) ++ g /\
+                without_role RTop K = without_role RTop (kids op) /\ Forall (fun o => kids o = []) g.
+
+  Lemma p_lt : p < length h.
+  Proof. apply nth_error_Some. unfold get in Gp. congruence. Qed.
+
+  Lemma shaped_start : shaped h.
+  Proof.
+    exists (kids op), []. rewrite app_nil_r. repeat split; auto.
+    symmetry. rewrite (upd_ext_at h p (set_kids (kids op)) (fun o => o) op Gp (set_kids_same op)).
+    now apply upd_id.
+  Qed.
+
+  Lemma shaped_upd_p hx (F : list (role * id) -> list (role * id)) :
+    (forall K, without_role RTop (F K) = without_role RTop K) ->
+    shaped hx -> shaped (upd hx p (fun o => set_kids (F (kids o)) o)).
+  Proof.
+    intros HF (K & g & E & W & Fg). exists (F K), g. subst hx. repeat split; auto.
+    - rewrite upd_app_l by (rewrite length_upd; apply p_lt). f_equal.
+      rewrite upd_upd. now apply upd_ext.
+    - now rewrite HF.
+  Qed.
+
+  Lemma shaped_get_p hx : shaped hx -> exists K, get hx p = Some (set_kids K op).
+  Proof.
+    intros (K & g & E & _). exists K. subst hx. unfold get.
+    rewrite nth_error_app1 by (rewrite length_upd; apply p_lt). now apply get_upd_eq.
+  Qed.
+
+  Lemma shaped_detach0 w hx : (forall q o, w q o = o) -> shaped hx -> shaped (detach_gen w RTop hx p 0).
+  Proof.
+    intros Hw S. unfold detach_gen. destruct (shaped_get_p hx S) as (K & G). rewrite G. simpl.
+    destruct (del RTop 0 K) as [[c rest]|] eqn:D; auto.
+    rewrite (upd_id _ c (w p)) by apply Hw.
+    destruct S as (K' & g & E & W & Fg). exists rest, g.
+    assert (K' = K) as ->.
+    { subst hx. unfold get in G. rewrite nth_error_app1 in G by (rewrite length_upd; apply p_lt).
+      fold (get (upd h p (set_kids K')) p) in G. rewrite (get_upd_eq _ _ _ _ Gp) in G. now inversion G. }
+    subst hx. repeat split; auto.
+    - rewrite upd_app_l by (rewrite length_upd; apply p_lt). f_equal. rewrite upd_upd. now apply upd_ext.
+    - rewrite <- W. eapply without_role_del; eauto.
+  Qed.
+
+  Lemma shaped_detach_all w n : (forall q o, w q o = o) -> forall hx, shaped hx -> shaped (detach_all_gen n w RTop hx p).
+  Proof. intros Hw. induction n as [|n IH]; simpl; intros hx S; auto. apply IH. now apply shaped_detach0. Qed.
+
+  Lemma shaped_push hx o : kids o = [] -> shaped hx -> shaped (hx ++ [o]).
+  Proof.
+    intros Ko (K & g & E & W & Fg). exists K, (g ++ [o]). subst hx. rewrite <- app_assoc. repeat split; auto.
+    apply Forall_app. split; auto.
+  Qed.
+
+  Lemma shaped_write_new hx c w : length h <= c -> (forall o, kids (w o) = kids o) -> shaped hx -> shaped (upd hx c w).
+  Proof.
+    intros Lc Hk (K & g & E & W & Fg). exists K, (upd g (c - length h) w). subst hx. repeat split; auto.
+    - rewrite upd_app_r by (rewrite length_upd; exact Lc). now rewrite length_upd.
+    - apply upd_forall; auto. intros o Ho. now rewrite Hk.
+  Qed.
+
+  Lemma shaped_length hx : shaped hx -> length h <= length hx.
+  Proof. intros (K & g & E & _). subst hx. rewrite app_length, length_upd. lia. Qed.
+
+  Lemma shaped_parse hx : shaped hx -> shaped (parse_one_rule p hx).
+  Proof.
+    intros S. unfold parse_one_rule, attach, attach_gen, alloc.
+    set (hx' := hx ++ _). assert (shaped hx') as S' by (apply shaped_push; auto).
+    destruct (get hx' p); auto. destruct (get hx' (length hx)); auto.
+    destruct (_ && _ && _); auto. simpl site_role. unfold clear_role. simpl role_single. cbv iota.
+    apply (shaped_upd_p _ (ins RTop (length hx) (length hx))).
+    - intros K. apply without_role_ins.
+    - apply shaped_write_new; [now apply shaped_length | intros; apply site_writes_kids | exact S'].
+  Qed.
+
+  Lemma shaped_iter n hx : shaped hx -> shaped (Nat.iter n (parse_one_rule p) hx).
+  Proof. intros S. induction n as [|n IH]; simpl; auto. now apply shaped_parse. Qed.
+
+  (* the raw restore of the saved list on a shaped heap gives back h (up to the interleaving of roles in the
+     element list of p, which carries no meaning) plus unreferenced garbage *)
+  Lemma shaped_restore hx :
+    LinksOk h -> shaped hx ->
+    let R := raw_set_rules hx p (role_kids RTop (kids op)) in
+    LinksOk R /\ forall i o, get h i = Some o -> exists o', get R i = Some o' /\ same_obj o o'.
+  Proof.
+    intros L (K & g & E & W & Fg) R. subst hx.
+    set (K2 := without_role RTop (kids op) ++ map (pair RTop) (role_kids RTop (kids op))).
+    assert (R = upd h p (set_kids K2) ++ g) as ER.
+    { unfold R, raw_set_rules. rewrite upd_app_l by (rewrite length_upd; apply p_lt). f_equal.
+      rewrite upd_upd. apply upd_ext. intros o. simpl. unfold K2. now rewrite W. }
+    rewrite ER. split.
+    - apply ok_app_nokids; auto. eapply ok_shrink with (rem := []); eauto. simpl. apply perm_split_role.
+    - intros i o Gi. assert (i < length h) as Li by (apply nth_error_Some; unfold get in Gi; congruence).
+      unfold get. rewrite nth_error_app1 by (now rewrite length_upd). fold (get (upd h p (set_kids K2)) i).
+      rewrite get_upd. destruct (Nat.eqb p i) eqn:Ei.
+      + apply Nat.eqb_eq in Ei; subst i. rewrite Gi. simpl. eexists; split; eauto.
+        rewrite Gp in Gi. inversion Gi; subst o. unfold same_obj; simpl. repeat split; auto.
+        intros r. unfold K2. now rewrite role_kids_split.
+      + rewrite Gi. eexists; split; eauto. apply same_obj_refl.
+  Qed.
+End Rejected.
+
+(* A rejected sheet.cssText assignment: rules cleared through the setter, n rules of the new text parsed and
+   inserted, rollback by the raw restore -- the heap is what it was (every old object agrees in kind, stored
+   attributes and element lists; only unreferenced new objects were added) and LinksOk still holds.
+   The proof computes with the regenerated shape of _setCssText (clear through the setter, raw restore) and of the
+   setter's first loop: a setter that starts to write on the rules it replaces breaks sheet_setter_keeps_replaced. *)
+Theorem rejected_keeps_links_l : forall h p n, LinksOk h ->
+  let R := sheet_cssText_rejected h p n in
+  LinksOk R /\ forall i o, get h i = Some o -> exists o', get R i = Some o' /\ same_obj o o'.
+Proof.
+  intros h p n L. unfold sheet_cssText_rejected.
+  destruct (get h p) as [op|] eqn:Gp.
+  2:{ split; auto. intros i o Gi. exists o. split; auto. apply same_obj_refl. }
+  unfold sheet_cssText_restore_via_setter, sheet_clear_rules, sheet_cssText_clear_via_setter. cbv iota.
+  apply (shaped_restore h p op Gp); auto.
+  apply (shaped_iter h p op Gp). unfold sheet_set_cssRules. simpl fold_left.
+  apply (shaped_detach_all h p op Gp).
+  - intros q o. apply sheet_setter_keeps_replaced.
+  - exact (shaped_start h p op Gp).
+Qed.
+
+(* what the statement excludes: had the setter detached the replaced rules (written _parentStyleSheet = None on
+   them, as CSSRuleRules._setCssRules does for _parentRule), the raw restore would leave the sheet with rules that
+   name no sheet *)
+Example ex_detaching_setter_breaks_rollback :
+  let h := run [OAlloc KSheet None None None None; OAlloc KRule None None None None; OAttach SSheetInsert 0 1 0] start in
+  let h1 := detach_all_gen 1 (guarded (Some LPss) [(LPss, LNone)]) RTop h 0 in
+  option_map f_pss (get (raw_set_rules h1 0 [1]) 1) = Some None /\
+  option_map f_pss (get (sheet_cssText_rejected h 0 2) 1) = Some (Some 0).
+Proof. vm_compute. auto. Qed.
+
+(* rejected calls that reach no assignment site: deleteRule with an index out of range, an insertion of an object
+   that is still contained elsewhere -- the step is the identity *)
+Lemma detach_out_of_range d h p i : removed (dsite_role d) h p i = None -> detach d h p i = h.
+Proof.
+  unfold removed, detach, detach_gen. destruct (get h p); auto.
+  destruct (del (dsite_role d) i (kids o)) as [[c rest]|]; auto. discriminate.
+Qed.
+Lemma attach_contained s h p c idx : contained h c = true -> attach s h p c idx = h.
+Proof.
+  intros C. unfold attach, attach_gen. destruct (get h p); auto. destruct (get h c); auto.
+  rewrite C. reflexivity.
+Qed.
 
 (* ------------------------------------------------------------------ the accessors *)
 (* what the accessors (as the code evaluates them) must return for an element of role r in container p *)
@@ -412,7 +719,7 @@ Theorem deleted_detached_l : forall d h p i c, LinksOk h ->
     acc_parentRule oc = None /\ acc_parent oc = None /\
     forall fuel, acc_parentStyleSheet fuel h' oc = Some None.
 Proof.
-  intros d h p i c L R h'. unfold removed in R. unfold h', detach.
+  intros d h p i c L R h'. unfold removed in R. unfold h', detach, detach_gen.
   destruct (get h p) as [op|] eqn:G; [|discriminate].
   destruct (del (dsite_role d) i (kids op)) as [[c' rest]|] eqn:D; [|discriminate].
   inversion R; subst c'. clear R.
@@ -422,17 +729,18 @@ Proof.
   destruct L as [_ E]. destruct (E _ _ _ _ G I) as (oc & Gc & S).
   split.
   - destruct (contained _ c) eqn:C; auto. apply contained_spec in C.
-    rewrite allkids_upd_same in C by apply dsite_writes_kids. contradiction.
+    rewrite allkids_upd_same in C by (intros; apply dsite_writes_kids). contradiction.
   - assert (exists oc1, get (upd h p (set_kids rest)) c = Some oc1 /\ okind oc1 = okind oc /\
                         f_pr oc1 = f_pr oc /\ f_pss oc1 = f_pss oc /\ f_par oc1 = f_par oc)
       as (oc1 & Gc1 & K1 & Fpr1 & Fpss1 & Fpar1).
     { rewrite get_upd. destruct (Nat.eqb p c); rewrite Gc; simpl; eauto 10. }
-    exists (dsite_writes d oc1). split; [now apply get_upd_eq|].
+    exists (dsite_writes d p oc1). split; [now apply get_upd_eq|].
     unfold acc_parentRule, acc_parent.
-    destruct d; simpl in *; destruct S as [K [F1 [F2 F3]]].
+    (* computes with the REGENERATED deleteRule writes *)
+    destruct d; cbn in *; destruct S as [K [F1 [F2 F3]]].
     + rewrite Fpr1, F1, Fpar1, F3. repeat split; auto.
-      intros fuel. destruct fuel; simpl; rewrite Fpr1, F1; reflexivity.
-    + repeat split; auto. intros fuel. destruct fuel; simpl; rewrite Fpss1, F2; reflexivity.
+      intros fuel. destruct fuel; cbn; rewrite Fpr1, F1; reflexivity.
+    + repeat split; auto. intros fuel. destruct fuel; cbn; rewrite Fpss1, F2; reflexivity.
 Qed.
 
 (* ------------------------------------------------------------------ non-vacuity and the old derivation *)
